@@ -3,8 +3,14 @@
    its entry-wise specification, and the operands that are not the output are
    left unchanged.  Corollaries of lincomb_impl_correct. *)
 From Coq Require Import ZArith Lia List Bool Field Ring.
-From Verif Require Import Base.Num Base.Vec C01.Syntax Gen.Lincomb C01.Carriers C01.Model C01.Laws
+From Verif Require Import Base.Num Base.Vec C01.Syntax Gen.Lincomb Gen.SpaceOps C01.Carriers C01.Model C01.Laws
   C01.Proofs C01.ModelSpace.
+
+(* expose the space-level calls of a regenerated operator program *)
+Ltac open_prog :=
+  cbn [run_w run_call eref_el sref_val];
+  unfold with_one, seq, w_lincomb1, w_lincomb2, w_multiply, w_divide;
+  cbn [space_lincomb1_call space_lincomb2_call space_multiply_call space_divide_call pick3 sval2 sval e_a e_b].
 Import ListNotations.
 Local Open Scope num_scope.
 
@@ -148,7 +154,7 @@ Theorem rsub_scalar_spec (c : T) (x t : nat) (s : store T) :
   t <> x -> length (s t) = length (s x) ->
   yields (w_rsub_scalar flg bdtf icast sp (Leaf x) c (Leaf t)) s t (map (fun e => c - e) (s x)).
 Proof.
-  intros Htx L2. unfold yields, w_rsub_scalar, with_one, seq, w_lincomb1. cbn [fill_elem]. cbv beta.
+  intros Htx L2. unfold yields, w_rsub_scalar, prog_rsub_scal. open_prog. cbn [fill_elem]. cbv beta.
   set (s1 := upd s t (map (fun _ => of_Z 1) (s t))).
   assert (E1 : s1 x = s x) by (unfold s1; apply upd_other; congruence).
   assert (E2 : s1 t = map (fun _ => of_Z 1) (s t)) by (unfold s1; apply upd_same).
@@ -167,13 +173,13 @@ Qed.
 
 (* ---- element-wise product and quotient ---- *)
 Theorem mul_spec (x y t : nat) (s : store T) :
-  yields (w_mul sp (Leaf x) (Leaf y) (Leaf t)) s t (vmul (s y) (s x)).
+  yields (w_mul flg bdtf icast sp (Leaf x) (Leaf y) (Leaf t)) s t (vmul (s y) (s x)).
 Proof.
   unfold yields, w_mul, ps_multiply. cbn [ps_map3]. unfold multiply_leaf, multiply_impl.
   eexists. split; [reflexivity|]. split; [apply upd_same | intros j Hj; apply upd_other; exact Hj].
 Qed.
 Theorem truediv_spec (x y t : nat) (s : store T) :
-  yields (w_truediv sp (Leaf x) (Leaf y) (Leaf t)) s t (vdiv (s x) (s y)).
+  yields (w_truediv flg bdtf icast sp (Leaf x) (Leaf y) (Leaf t)) s t (vdiv (s x) (s y)).
 Proof.
   unfold yields, w_truediv, ps_divide. cbn [ps_map3]. unfold divide_leaf, divide_impl.
   eexists. split; [reflexivity|]. split; [apply upd_same | intros j Hj; apply upd_other; exact Hj].
@@ -219,19 +225,19 @@ Proof.
 Qed.
 
 Theorem imul_spec (x y : nat) (s : store T) :
-  yields (w_imul sp (Leaf x) (Leaf y)) s x (vmul (s y) (s x)).
+  yields (w_imul flg bdtf icast sp (Leaf x) (Leaf y)) s x (vmul (s y) (s x)).
 Proof.
   unfold yields, w_imul, ps_multiply. cbn [ps_map3]. unfold multiply_leaf, multiply_impl.
   eexists. split; [reflexivity|]. split; [apply upd_same | intros j Hj; apply upd_other; exact Hj].
 Qed.
 Theorem itruediv_spec (x y : nat) (s : store T) :
-  yields (w_itruediv sp (Leaf x) (Leaf y)) s x (vdiv (s x) (s y)).
+  yields (w_itruediv flg bdtf icast sp (Leaf x) (Leaf y)) s x (vdiv (s x) (s y)).
 Proof.
   unfold yields, w_itruediv, ps_divide. cbn [ps_map3]. unfold divide_leaf, divide_impl.
   eexists. split; [reflexivity|]. split; [apply upd_same | intros j Hj; apply upd_other; exact Hj].
 Qed.
 Theorem rtruediv_spec (x y t : nat) (s : store T) :
-  yields (w_rtruediv sp (Leaf x) (Leaf y) (Leaf t)) s t (vdiv (s y) (s x)).
+  yields (w_rtruediv flg bdtf icast sp (Leaf x) (Leaf y) (Leaf t)) s t (vdiv (s y) (s x)).
 Proof.
   unfold yields, w_rtruediv, ps_divide. cbn [ps_map3]. unfold divide_leaf, divide_impl.
   eexists. split; [reflexivity|]. split; [apply upd_same | intros j Hj; apply upd_other; exact Hj].
@@ -264,7 +270,7 @@ Ltac entrywise2 :=
 
 (* the three multiplications used by __ipow__ *)
 Lemma imul_run (a b : nat) (s : store T) :
-  w_imul sp (Leaf a) (Leaf b) s = Ok (upd s a (vmul (s b) (s a))).
+  w_imul flg bdtf icast sp (Leaf a) (Leaf b) s = Ok (upd s a (vmul (s b) (s a))).
 Proof. reflexivity. Qed.
 
 Lemma vmul_same_map (g h : T -> T) (l : list T) :
@@ -276,7 +282,7 @@ Qed.
 (* tmp *= self, k times, starting from tmp = self^m *)
 Lemma iter_tmul (k m : nat) (x t : nat) (s : store T) : t <> x ->
   s t = vpow (s x) m ->
-  exists s', iter_m k (w_imul sp (Leaf t) (Leaf x)) s = Ok s'
+  exists s', iter_m k (w_imul flg bdtf icast sp (Leaf t) (Leaf x)) s = Ok s'
     /\ s' t = vpow (s x) (m + k)
     /\ forall j, j <> t -> s' j = s j.
 Proof.
